@@ -56,7 +56,7 @@ def run(ctx):
     for i, sc in enumerate(scs):
         rr = rng("C01", sc["id"])
         jobs.append((sc, dict(run_id="m%d" % i, workers=rr.choice([1, 2, 4]), no_progress=rr.random() < 0.5,
-                              cell=rr.choice([1, 4096]) if len(sc["salloc"]) == sc["len"] else 4096)))
+                              cell=rr.choice([1, 4096]) if len(sc["salloc"]) == sc["len"] else 4096, life=(i % 4 == 0))))
     # sizes at block boundaries with byte-sized cells, bigger than the model's bound
     n = 0
     for drv in ("parfile", "parblock"):
